@@ -12,12 +12,9 @@ import GdcVerif.Lemmas.T81HEncDec
   the repo's scan loops (Model/JpegLossless.lean, over the regenerated `Gen.JpegLossless.Predictor`).
   Property theorems only.
 
-  FINDING still open on /repo HEAD (reproduced on the real code by the harness):
-  * `jll-firstrow-predictor-*`: jpeg/lossless applies the SELECTED predictor on the first line and at
-    line starts with 2^(P-1) stand-ins; H.1.2.1 prescribes Ra on the first line and Rb at line
-    starts.  Exactly: first line differs for predictors 2, 3, 6, 7; line starts for 3, 5, 7.
-  Repaired in /repo and now proved in full: `jll-td23-rejected` (fix 879b6e2), `sv1-sos-selector`
-  (fix f4e8601), `jll-pred456-wrap` (fix 479126d); their old witnesses are regression `example`s.
+  All former findings are repaired in /repo and proved in full; their old witnesses are regression
+  `example`s: `jll-firstrow-predictor-enc` and `-dec` (fix 946feeb: first line Ra, line start Rb),
+  `jll-td23-rejected` (fix 879b6e2), `sv1-sos-selector` (fix f4e8601), `jll-pred456-wrap` (fix 479126d).
 -/
 namespace T81H
 open JLL
@@ -44,42 +41,25 @@ theorem code_predictor_table_conforms (sel : Nat) (ra rb rc : Int) (h : 1 ≤ se
     Gen.JpegLossless.Predictor (sel : Int) ra rb rc = predictor sel ra rb rc :=
   predictor_agrees sel ra rb rc h
 
-/-- The full conformance statement for the prediction of jpeg/lossless. -/
-def px_conformance_FullStatement : Prop :=
-  ∀ (P sel row col : Nat) (nb : Nb), 2 ≤ P ∧ P ≤ 16 → 1 ≤ sel ∧ sel ≤ 7 →
-    encPredicted P sel row col nb = px P 0 sel row col nb.left nb.up nb.upLeft
-
-/-- first line, predictor 2: the standard predicts Ra (=10), the code predicts 2^(P-1) (=128) -/
-theorem px_conformance_counterexample :
-    encPredicted 8 2 0 1 ⟨10, 0, 0⟩ = 128 ∧ px 8 0 2 0 1 10 0 0 = 10 := by decide
-
-theorem px_conformance_false : ¬ px_conformance_FullStatement := by
-  intro h
-  have := h 8 2 0 1 ⟨10, 0, 0⟩ (by decide) (by decide)
-  exact absurd this (by decide)
-
-/-- every non-conforming (edge, predictor) combination, by witness: first line 2, 3, 6, 7;
-    line start 3, 5, 7 -/
-theorem px_nonconforming_cases :
-    (∀ sel ∈ [2, 3, 6, 7], encPredicted 8 (sel : Nat) 0 1 ⟨10, 0, 0⟩ ≠ px 8 0 sel 0 1 10 0 0) ∧
-    (∀ sel ∈ [3, 5, 7], encPredicted 8 (sel : Nat) 1 0 ⟨0, 10, 0⟩ ≠ px 8 0 sel 1 0 0 10 0) := by decide
-
-/-- What holds: the code's prediction equals the standard's at the first sample, at every
-    interior position for every predictor, on the first line for predictors 1, 4, 5 and at
-    line starts for predictors 1, 2, 4, 6 — so predictors 1 and 4 conform everywhere.
-    Missing for the full statement: the complementary cases, which are false (above). -/
-theorem px_conformance_partial (P sel row col : Nat) (nb : Nb) (hP : 1 ≤ P) (hs : 1 ≤ sel ∧ sel ≤ 7)
-    (hok : (row = 0 ∧ col = 0) ∨ (row > 0 ∧ col > 0) ∨
-           (row = 0 ∧ (sel = 1 ∨ sel = 4 ∨ sel = 5)) ∨
-           (col = 0 ∧ (sel = 1 ∨ sel = 2 ∨ sel = 4 ∨ sel = 6))) :
-    encPredicted P sel row col nb = px P 0 sel row col nb.left nb.up nb.upLeft :=
-  encPredicted_conforms P sel row col nb hP hs hok
+/-- H.1.2.1, FULL: the prediction of jpeg/lossless (encoder scan, frequency pass and decoder scan;
+    since fix 946feeb) equals the standard's Px at every position — first sample 2^(P−1), first line
+    Ra, line start Rb, elsewhere the selected predictor — for every precision and predictor 1..7 -/
+theorem px_conformance (P sel row col : Nat) (nb : Nb) (hP : 2 ≤ P ∧ P ≤ 16) (hs : 1 ≤ sel ∧ sel ≤ 7) :
+    encPredicted P sel row col nb = px P 0 sel row col nb.left nb.up nb.upLeft ∧
+    decPredicted P sel row col nb = px P 0 sel row col nb.left nb.up nb.upLeft ∧
+    freqPredicted P sel row col nb = px P 0 sel row col nb.left nb.up nb.upLeft := by
+  have h := encPredicted_conforms P sel row col nb (by omega) hs
+  refine ⟨h, by rw [decPredicted_eq_enc]; exact h, ?_⟩
+  rw [freqPredicted_eq_enc _ _ _ _ _ (by omega) (by omega)]; exact h
 
 example : encPredicted 8 7 3 2 ⟨10, 21, 5⟩ = px 8 0 7 3 2 10 21 5 := by decide
 
-/-- the decoder's copy is the same text, so it deviates in exactly the same places -/
-theorem decoder_px_same_as_encoder (P sel row col : Nat) (nb : Nb) :
-    decPredicted P sel row col nb = encPredicted P sel row col nb := decPredicted_eq_enc _ _ _ _ _
+/-- regression: the witnesses of the former defect `jll-firstrow-predictor-*` (first line, col 1, Ra = 10:
+    the code predicted 2^(P−1) = 128 for predictors 2, 3, 6, 7; second line, col 0, Rb = 10: wrong for
+    predictors 3, 5, 7) now give the standard's value 10 for every predictor -/
+example : ∀ sel ∈ [1, 2, 3, 4, 5, 6, 7],
+    encPredicted 8 (sel : Nat) 0 1 ⟨10, 0, 0⟩ = 10 ∧ px 8 0 sel 0 1 10 0 0 = 10 ∧
+    decPredicted 8 (sel : Nat) 1 0 ⟨0, 10, 0⟩ = 10 ∧ px 8 0 sel 1 0 0 10 0 = 10 := by decide
 
 /-- SV1 (both sides) follows H.1.2.1 at every position -/
 theorem sv1_px_conforms (P row col : Nat) (nb : Nb) (hP : 1 ≤ P) :
@@ -148,35 +128,26 @@ example : td 0x20 = some 2 ∧ jllSelector 0x20 = .ok 2 ∧ td 0x10 = some 1 ∧
 
 /-! ## STREAM LEVEL — the independent specification decodes the model encoder's stream -/
 
-/-- `specDecode (modelEncode img) = img`: the stream that the byte-exact model of `lossless.Encode`
+/-- `specDecode (modelEncode img) = img`, FULL: the stream that the byte-exact model of `lossless.Encode`
     (sv1 = false) / `lossless14sv1.Encode` (sv1 = true) produces is accepted by the strict Annex B reader
     and decoded by the Annex H procedure (`Spec/T81HStream.lean`) to exactly the source samples, with
     the same width, height and precision — for every geometry 1..65535, 1 or 3 components, P 2..16,
-    every admissible content, SV1, predictors 1 and 4 on every image, and predictors 2, 3, 5, 6, 7 on
-    exactly the geometries where the first-row / line-start deviation cannot show (`EdgeConform`:
-    2 and 6 on one-column images, 5 on one-row images, any predictor on 1×1). -/
+    every admissible content, SV1, and EVERY predictor argument 0..7 (0: whatever automatic selection
+    picks) on every image. -/
 theorem encoder_stream_conforms (sv1 : Bool) (pix : Array Nat) (w h nc P predictor : Nat)
     (hw : 1 ≤ w ∧ w ≤ 65535) (hh : 1 ≤ h ∧ h ≤ 65535) (hc : nc = 1 ∨ nc = 3)
-    (hP : 2 ≤ P ∧ P ≤ 16) (hpr : 1 ≤ predictor ∧ predictor ≤ 7) (hpix : PixOk P w h nc pix)
-    (hedge : EdgeConform sv1 predictor w h) :
+    (hP : 2 ≤ P ∧ P ≤ 16) (hpr : predictor ≤ 7) (hpix : PixOk P w h nc pix) :
     ∃ stream s, Stream.encode sv1 pix w h nc P predictor = .ok stream ∧
       pixelsToSamples P w h nc pix = .ok s ∧
       specDecode stream =
         some { width := w, height := h, precision := P,
                planes := (List.range nc).map fun c => (List.range (w * h)).map fun i => cell s c i } :=
-  encode_specDecode' sv1 pix w h nc P predictor hw hh hc hP hpr hpix hedge
+  encode_specDecode' sv1 pix w h nc P predictor hw hh hc hP hpr hpix
 
-example : EdgeConform false 4 512 512 ∧ EdgeConform true 1 65535 1 ∧ EdgeConform false 6 1 9 ∧
-    ¬ EdgeConform false 7 2 1 := by decide
-
-/-- `EdgeConform` is EXACTLY the class of (predictor, geometry) on which the code's prediction equals
-    H.1.2.1's at every position of the image, for all neighbour values -/
-theorem edge_conform_exact (P pred w h : Nat) (hP : 2 ≤ P ∧ P ≤ 16) (hp : 1 ≤ pred ∧ pred ≤ 7)
-    (hw : 1 ≤ w) (hh : 1 ≤ h) :
-    EdgeConform false pred w h ↔
-      ∀ row col, row < h → col < w → ∀ nb : Nb,
-        encPredicted P pred row col nb = px P 0 pred row col nb.left nb.up nb.upLeft :=
-  edgeConform_iff P pred w h hP hp hw hh
+/-- non-vacuity / regression: the geometry and predictor of the old witness (2×2, 8 bit, predictor 2,
+    samples 10 20 30 40) satisfy the hypotheses -/
+example : PixOk 8 2 2 1 #[10, 20, 30, 40] ∧ (2 : Nat) ≤ 7 := by
+  refine ⟨?_, by decide⟩; simp only [PixOk]; decide
 
 /-- two independent transcriptions of B.1.1.5 and Annex C agree: the spec's bit sequence of an
     entropy-coded segment and its code table are the model's -/
@@ -193,11 +164,10 @@ theorem spec_bits_and_codes_agree (scan : List Nat) (bits vals : List Nat) :
     same destination — one interleaved scan) produces is decoded by the byte-exact model of
     `lossless.Decode` (sv1 = false) resp. `lossless14sv1.Decode` (sv1 = true, Ss = 1, distinct ids) to
     exactly the source samples in the native byte layout, with the same width, height, component
-    count and precision — for every geometry 1..65535, 1 or 3 components, P 2..16; for the
-    jpeg/lossless decoder on the (predictor, geometry) classes of `EdgeConform` (predictors 1 and 4
-    everywhere, see `edge_conform_exact`). -/
+    count and precision — for every geometry 1..65535, 1 or 3 components, P 2..16 and every
+    predictor 1..7 (SV1: selection value 1). -/
 theorem decoder_accepts_spec_streams (sv1 : Bool) (P w h : Nat) (planes : List (List Int)) (cfg : EncCfg)
-    (bytes : List Nat) (hcfg : CfgOk sv1 planes.length cfg) (himg : ImgOk sv1 P w h cfg.sel planes)
+    (bytes : List Nat) (hcfg : CfgOk sv1 planes.length cfg) (himg : ImgOk P w h planes)
     (henc : specEncode P w h planes cfg = some bytes) :
     Stream.decode sv1 bytes =
       .ok ((List.range (w * h)).flatMap (fun i => (List.range planes.length).flatMap fun c =>
@@ -206,7 +176,7 @@ theorem decoder_accepts_spec_streams (sv1 : Bool) (P w h : Nat) (planes : List (
 
 /-- non-vacuity: three components on destinations 2, 0, 1 with three different tables (destination 1
     written twice), a 2×2 8-bit image; the spec encoder succeeds on it -/
-example : CfgOk false 3 exCfg ∧ CfgOk true 3 exCfg ∧ ImgOk false 8 2 2 exCfg.sel exPlanes ∧
+example : CfgOk false 3 exCfg ∧ CfgOk true 3 exCfg ∧ ImgOk 8 2 2 exPlanes ∧
     (specEncode 8 2 2 exPlanes exCfg).isSome = true := by
   refine ⟨by decide, by decide, by decide, ?_⟩
   rw [specEncode_isSome]; decide
